@@ -1,7 +1,7 @@
 (* C12 -- "stops exactly at the final time", RungeKutta42::iterate / RungeKutta54::iterate with the exit test on tf
    (model adapt_iterate true; selected by check.py when that model is the one that corresponds to /repo). *)
 From Coq Require Import Reals List.
-From C12 Require Import C12Spec C12Model C12Proofs.
+From C12 Require Import C12Model C12LoopProofs.
 Local Open Scope R_scope.
 
 (* for every sequence of acceptances, rejections and multipliers: if the loop ends, it ends at tf *)
